@@ -58,7 +58,13 @@ C14_Deadline(r) == r.closed /\ r.closedAfterMs <= r.timeoutMs + 1000
 \* a frame whose length prefix never ends within five bytes is refused at once, not buffered until the deadline
 C14_OverlongRefused(r) == r.behaviour = "overlong-prefix" => (r.closed /\ r.closedAfterMs <= 1500)
 
-Names(fam) == CASE fam = "C15" -> {"C15_ServedIffAdmitted", "C15_RefusedGetsNothing", "C15_NoBackendForUnserved", "C15_BackendSeesEffective", "C15_CookieBoundToEffective", "C15_LoginGetsCookie"}
+\* the same observation under the cookie properties: the address a cookie records (C10) and is bound to (C02: "same IP") is the
+\* client's effective address -- behind a balancer the PROXY-announced source, never the balancer's
+C10_RecordsEffectiveAddress(r) == C15_CookieBoundToEffective(r) /\ C15_LoginGetsCookie(r)
+C02_BoundToEffectiveAddress(r) == C15_CookieBoundToEffective(r)
+
+Names(fam) == CASE fam = "C15" /\ Prop = "C10" -> {"C10_RecordsEffectiveAddress"} [] fam = "C15" /\ Prop = "C02" -> {"C02_BoundToEffectiveAddress"}
+                [] fam = "C15" -> {"C15_ServedIffAdmitted", "C15_RefusedGetsNothing", "C15_NoBackendForUnserved", "C15_BackendSeesEffective", "C15_CookieBoundToEffective", "C15_LoginGetsCookie"}
                 [] fam = "C16" -> IF Prop = "C17" THEN {"C17_StopsDespiteHostile"} ELSE {"C16_GoodServedPromptly"}
                 [] fam = "C17" -> {"C17_ReturnsAfterAllFinished", "C17_WithinTimeout", "C17_InFlightCompletes", "C17_LateNotServed", "C17_NotBeforeInFlight"}
                 [] fam = "C17app" -> {"C17_ApplicationDrains"} [] fam = "C15app" -> {"C15_ApplicationWiring"} [] fam = "C15race" -> {"C15_ConcurrentAdmissions"}
@@ -73,6 +79,7 @@ Clause(c, r) ==
     [] c = "C17_InFlightCompletes" -> C17_InFlightCompletes(r) [] c = "C17_LateNotServed" -> C17_LateNotServed(r)
     [] c = "C17_NotBeforeInFlight" -> C17_NotBeforeInFlight(r)
     [] c = "C17_ApplicationDrains" -> C17_ApplicationDrains(r) [] c = "C15_ApplicationWiring" -> C15_ApplicationWiring(r) [] c = "C15_ConcurrentAdmissions" -> C15_ConcurrentAdmissions(r)
+    [] c = "C10_RecordsEffectiveAddress" -> C10_RecordsEffectiveAddress(r) [] c = "C02_BoundToEffectiveAddress" -> C02_BoundToEffectiveAddress(r)
     [] c = "C14_MaxLength" -> C14_MaxLength(r) [] c = "C14_CookieAcceptance" -> C14_CookieAcceptance(r) [] c = "C14_Deadline" -> C14_Deadline(r) [] c = "C14_OverlongRefused" -> C14_OverlongRefused(r)
     [] OTHER -> FALSE
 
